@@ -1327,6 +1327,20 @@ def op_x_std(req):
         objs = _materialise(req["src"])
     except (SyntaxError, ValueError, OverflowError, RecursionError, MemoryError) as e:
         return {"reject": "%s: %s" % (type(e).__name__, e)}
+    # xdis's instruction iterator is quadratic in the code size (the label finder runs once per instruction): objects
+    # with a big code object make a case take minutes without exercising anything the small ones do not
+    cap = int(req.get("max_code") or 1400)
+
+    def small(obj):
+        c = getattr(obj, "__code__", None) or getattr(obj, "gi_code", None) or getattr(obj, "cr_code", None) or \
+            getattr(obj, "ag_code", None) or (getattr(getattr(obj, "__func__", None), "__code__", None)) or obj
+        if isinstance(c, str):
+            try:
+                c = compile(c, "<size>", "exec")
+            except Exception:
+                return True
+        return not hasattr(c, "co_code") or len(c.co_code) <= cap
+    objs = [(k, o) for k, o in objs if small(o)]
     fails = []
     seen_kinds = {}
     hasarg = set(getattr(opcode, "hasarg", ()))
